@@ -1,5 +1,6 @@
 """Base class for BFS drivers over a booted machine: time choices, error capture, fingerprints."""
 import asyncio
+import os
 
 from mc.boot import System
 
@@ -81,6 +82,7 @@ class MachineDriver:
                          (what, deadline - self.t0, None if nd is None else round(nd - self.t0, 3)))
 
     def _step(self, choice):
+        from mc.vloop import LivelockError
         self.log.append(choice)
         if choice == "T":
             self.loop.fire_next()
@@ -94,9 +96,18 @@ class MachineDriver:
             self.loop.advance_to(now + (d - now) / 2.0)
             self.after_time()
         else:
-            self.do_op(choice)
-            self.m.events.process_event_queue()
-            self.loop.drain()
+            try:
+                self.do_op(choice)
+                self.m.events.process_event_queue()
+                self.loop.drain()
+            except LivelockError:
+                raise
+            except Exception as e:      # noqa  - MPF raised on an operation of the alphabet
+                import traceback
+                tb = traceback.extract_tb(e.__traceback__)
+                where = next((f for f in reversed(tb) if "/mpf/" in f.filename), tb[-1])
+                self.violate("EXC:%s" % type(e).__name__, "operation %r raised %r at %s:%s" %
+                             (choice, e, os.path.basename(where.filename), where.lineno))
         self.check_errors(choice)
         self.oracle(choice)
 
